@@ -9,8 +9,9 @@
 From Coq Require Import String List NArith ZArith Bool Arith.
 From J5V.lib Require Import Text Outcome.
 From J5V.gen Require SetExtGen PanicGen WalkerGen.
-From J5V.model Require Import BclLexer BclParser CmpbFields CmpbDecls CmpbFront CmpbWalker.
-From J5V.proofs Require Import BclPosProofs BclBytesProofs CmpbFieldsProofs CmpbPanicProofs CmpbDeclsProofs CmpbSchemaProofs CmpbFrontProofs.
+From J5V.model Require Import Entity.
+From J5V.model Require Import BclLexer BclParser CmpbFields CmpbDecls CmpbFront CmpbWalker CmpbPackage CmpbEntity.
+From J5V.proofs Require Import BclPosProofs BclBytesProofs CmpbFieldsProofs CmpbPanicProofs CmpbDeclsProofs CmpbSchemaProofs CmpbFrontProofs CmpbPackageProofs CmpbEntityProofs.
 Import ListNotations.
 Local Open Scope string_scope.
 
@@ -38,17 +39,16 @@ Print Assumptions C07_field_imports_cover_extensions.
 (* ---- acceptance of the documented language.  Full statement: *)
 Definition C07_full_statement : Prop := full_language_statement.
 
-(* it does not hold: float rules ("TODO: float rules not implemented") and list rules on an
-   informal key ("unknown key format") are rejected — recorded findings *)
+(* it does not hold: float rules are rejected ("TODO: float rules not implemented") — recorded finding.
+   (List rules on an informal key were the second gap until fix dc2b724.) *)
 Theorem C07_language_refuted : ~ C07_full_statement.
 Proof. exact full_language_refuted. Qed.
 Print Assumptions C07_language_refuted.
 
-(* what holds: everything in the language except those two combinations is accepted and links;
-   missing for the full statement: float rules, informal key + list rules *)
+(* what holds: everything in the language except float rules is accepted and links;
+   missing for the full statement: float rules *)
 Theorem C07_language_accepted_partial : forall p,
-  in_language p = true -> uses_float_rules p = false -> uses_informal_key_listrules p = false ->
-  o_verdict (compile_iso p) = VOk.
+  in_language p = true -> uses_float_rules p = false -> o_verdict (compile_iso p) = VOk.
 Proof. exact language_accepted_partial. Qed.
 Print Assumptions C07_language_accepted_partial.
 
@@ -76,15 +76,11 @@ Print Assumptions C07_sites_agree.
 
 Definition C07_setext_full_statement : Prop := forallb gen_site_ok SetExtGen.sites = true.
 (* every SetExtension passes the extension's declared Go type to the options message the extension
-   extends, in a branch that imports the extension's file — except the list_request call *)
-Theorem C07_setext_typed_partial :
-  forallb gen_site_ok (filter (fun r => negb (is_listrequest_site r)) SetExtGen.sites) = true.
-Proof. exact setext_typed_partial. Qed.
-Print Assumptions C07_setext_typed_partial.
-Theorem C07_setext_typed_refuted :
-  exists r, In r SetExtGen.sites /\ is_listrequest_site r = true /\ gen_site_typed r = false.
-Proof. exact setext_typed_refuted. Qed.
-Print Assumptions C07_setext_typed_refuted.
+   extends, in a branch that imports the extension's file.  Full since fix 985f10a: the one ill-typed call
+   (list_request on MethodOptions, a certain panic) was replaced by a positioned error *)
+Theorem C07_setext_typed : C07_setext_full_statement.
+Proof. exact setext_typed. Qed.
+Print Assumptions C07_setext_typed.
 
 Theorem C07_setj5ext_copy_total : forallb j5ext_call_ok SetExtGen.setj5ext_calls = true.
 Proof. exact setj5ext_calls_ok. Qed.
@@ -114,13 +110,13 @@ Print Assumptions C07_object_shell_accepted.
 
 (* ---- whole files: any number of declarations, objects and oneofs with any number of properties
    (each property contributes what it contributes alone: conversion reads neither the import list nor the
-   errors recorded so far).  Without list requests the converter does not panic and every output file
-   links; a file of in-language declarations (minus the recorded gaps) is accepted; and it stays accepted
+   errors recorded so far).  The converter does not panic and every output file links — for EVERY list of
+   declarations (since fix 985f10a a list request is an error, not a panic); a file of in-language
+   declarations (minus the recorded gaps, which include list requests) is accepted; and it stays accepted
    when any declarations are removed: nothing depends on an unrelated declaration being present *)
-Theorem C07_file_total_links_partial : forall ds, no_list_requests ds ->
-  file_verdict ds <> VPanic /\ file_verdict ds <> VLinkErr.
-Proof. exact file_total_links. Qed.
-Print Assumptions C07_file_total_links_partial.
+Theorem C07_file_total_links : forall ds, file_verdict ds <> VPanic /\ file_verdict ds <> VLinkErr.
+Proof. exact file_total_links_all. Qed.
+Print Assumptions C07_file_total_links.
 Theorem C07_file_accepted_partial : forall ds,
   no_list_requests ds -> forallb decl_in_language ds = true -> file_verdict ds = VOk.
 Proof. exact file_accepted. Qed.
@@ -132,17 +128,18 @@ Print Assumptions C07_file_isolation.
 
 (* services: full statement *)
 Definition C07_service_full_statement : Prop := service_full_statement.
-(* refuted: a method with a list request panics in SetExtension (recorded finding) *)
+(* refuted: a method with a list request is rejected (recorded finding "documented language not accepted:
+   listRequest"; before fix 985f10a it panicked) *)
 Theorem C07_service_refuted : ~ C07_service_full_statement.
 Proof. exact service_full_refuted. Qed.
 Print Assumptions C07_service_refuted.
-(* partial: without list requests a service never panics and always links (whatever its methods:
-   missing request, bad verb, unknown path parameter), and is accepted when in the language;
-   missing for the full statement: methods with a list request *)
-Theorem C07_service_total_links_partial : forall sv, no_list_request (sv_methods sv) ->
+(* EVERY service (any number of methods, also malformed ones, with or without list requests) neither panics
+   nor fails to link *)
+Theorem C07_service_total_links : forall sv,
   verdict_d (compile_service sv) <> VPanic /\ verdict_d (compile_service sv) <> VLinkErr.
 Proof. exact service_total_links. Qed.
-Print Assumptions C07_service_total_links_partial.
+Print Assumptions C07_service_total_links.
+(* partial acceptance: in-language services without list requests; missing for the full statement: list requests *)
 Theorem C07_service_accepted_partial : forall sv,
   service_in_language sv = true -> no_list_request (sv_methods sv) -> verdict_d (compile_service sv) = VOk.
 Proof. exact service_accepted. Qed.
@@ -180,23 +177,13 @@ Print Assumptions C07_panic_sites_agree.
    ====================================================================================================== *)
 Definition C07_front_end_statement := front_end_statement.
 
-(* totality: for EVERY byte string and every walker that returns, the front end returns; the one panic left
-   is the converter's own, on a declaration with a list request.  The lexer / parser part is C11's
-   parse_runes_total and parse_runes_tree_or_diags (a nil tree never reaches ParseAST) *)
+(* totality: for EVERY byte string, both parser modes and every walker that returns, the front end returns
+   (never a panic, never out of fuel).  The lexer / parser part is C11's parse_runes_total and
+   parse_runes_tree_or_diags (a nil tree never reaches ParseAST); the converter part is C07_file_total_links *)
 Theorem C07_front_end_total : forall walk ff input, walker_returns walk ->
-  match front_end walk ff input with
-  | Ok _ => True
-  | Panic _ => exists body t lf, walk body = Ok (WalkFile t lf) /\ file_panics (map erase lf) = true
-  | _ => False
-  end.
+  exists out, front_end walk ff input = Ok out.
 Proof. exact front_end_total. Qed.
 Print Assumptions C07_front_end_total.
-
-Theorem C07_front_end_never_panics : forall walk ff input, walker_returns walk ->
-  (forall body t lf, walk body = Ok (WalkFile t lf) -> no_list_requests (map erase lf)) ->
-  exists out, front_end walk ff input = Ok out.
-Proof. exact front_end_never_panics. Qed.
-Print Assumptions C07_front_end_never_panics.
 
 (* positions: every error of the parse, walk and convert stages has both ends at positions of the input
    (C11's parse_runes_positions for diagnostics and tree nodes + the walker's contract + the plumbing below),
@@ -216,25 +203,22 @@ Print Assumptions C07_front_end_errors_inside_file.
 
 (* "descriptors or errors": no error reported => every output file was built and links *)
 Theorem C07_front_end_descriptors : forall walk ff input v lf,
-  front_end walk ff input = Ok (FEConverted v lf) -> no_list_requests (map erase lf) ->
+  front_end walk ff input = Ok (FEConverted v lf) ->
   v = VOk /\ file_nerr (map erase lf) = 0.
 Proof. exact front_end_descriptors. Qed.
 Print Assumptions C07_front_end_descriptors.
 
-(* the statement holds for every walker that returns and respects the position contract, on files without
-   list requests.  MISSING for the real compiler: that the real walker returns and respects the contract
+(* the statement holds for every walker that returns and respects the position contract.
+   MISSING for the real compiler: that the real walker returns and respects the contract
    (no model: reviewed census + crash stream with measured coverage + CFrontFile/CFrontErrs correspondence) *)
 Theorem C07_front_end_partial : forall walk,
-  walker_returns walk -> walker_contract walk ->
-  (forall body t lf, walk body = Ok (WalkFile t lf) -> no_list_requests (map erase lf)) ->
-  C07_front_end_statement walk.
+  walker_returns walk -> walker_contract walk -> C07_front_end_statement walk.
 Proof. exact front_end_statement_partial. Qed.
 Print Assumptions C07_front_end_partial.
-(* ... and fails for a walker that hands on a list request (the recorded finding) *)
-Theorem C07_front_end_refuted_listrequest :
-  walker_returns listreq_walk /\ walker_contract listreq_walk /\ ~ C07_front_end_statement listreq_walk.
-Proof. exact front_end_statement_refuted_listreq. Qed.
-Print Assumptions C07_front_end_refuted_listrequest.
+(* a list request (which panicked before fix 985f10a) is one positioned conversion error *)
+Theorem C07_listrequest_is_a_positioned_error : front_end listreq_walk true [] = Ok (FEErrors SConvert [span0]).
+Proof. exact listreq_is_a_positioned_error. Qed.
+Print Assumptions C07_listrequest_is_a_positioned_error.
 
 (* ---- the error-position plumbing of the converter stage *)
 (* SourceNode.child + GetPos: the position of a node is a span stored in the location tree — its own, or
@@ -268,10 +252,86 @@ Theorem C07_walker_census_agree : walker_sites_same_set = true /\ required_funcs
 Proof. exact (conj walker_sites_agree walker_required_funcs_exist). Qed.
 Print Assumptions C07_walker_census_agree.
 
+(* ======================================================================================================
+   A PACKAGE: PackageSet.loadPackage / loadLocalPackage / resolveDependencies with the resolveBaton chain
+   (model/CmpbPackage.v) around the per-file front end.  The link step is not modelled.
+   ====================================================================================================== *)
+(* "never hangs", loader part: the recursion over imports returns for EVERY bundle and every per-file
+   behaviour — the chain of packages being loaded holds distinct local names and cannot outgrow the bundle *)
+Theorem C07_package_load_terminates : forall fres b name, load_package fres b name <> OutOfFuel.
+Proof. exact load_package_terminates. Qed.
+Print Assumptions C07_package_load_terminates.
+
+(* it returns an error list (never a Go error without a list), and panics only if a file's front end does *)
+Theorem C07_package_load_total : forall walk b name,
+  match load_package (front_fres walk) b name with
+  | Ok _ => True
+  | Panic _ => exists f, In f (all_files b) /\ forall out, front_end walk true (sf_input f) <> Ok out
+  | _ => False
+  end.
+Proof. exact load_package_total. Qed.
+Print Assumptions C07_package_load_total.
+
+(* positions, full statement: every error of a package load is positioned inside a file of the bundle *)
+Definition C07_package_errors_positioned_statement : Prop := package_errors_positioned_statement.
+(* refuted: an import of a package nobody provides, and an import cycle, come back WITHOUT a position
+   (recorded findings "no files for package" / "circular dependency detected") *)
+Theorem C07_package_errors_positioned_refuted : ~ C07_package_errors_positioned_statement.
+Proof. exact package_errors_positioned_refuted. Qed.
+Print Assumptions C07_package_errors_positioned_refuted.
+Theorem C07_unknown_package_unpositioned :
+  load_package (front_fres demo_walk) unknown_pkg_bundle 1%N = Ok [mkPE ENoFiles None None].
+Proof. exact unknown_package_unpositioned. Qed.
+Print Assumptions C07_unknown_package_unpositioned.
+Theorem C07_package_cycle_unpositioned :
+  load_package (front_fres demo_walk) cycle_bundle 1%N = Ok [mkPE EPkgCycle None None].
+Proof. exact package_cycle_unpositioned. Qed.
+Print Assumptions C07_package_cycle_unpositioned.
+(* partial: every error is positioned inside a file of the bundle OR is one of those two loader errors.
+   Missing for the full statement: positions for the two loader errors; the link step (not modelled: its
+   errors are positioned in the generated file or, for a file cycle, not at all — recorded findings) *)
+Theorem C07_package_errors_positioned_partial : forall walk b name es, walker_contract walk ->
+  load_package (front_fres walk) b name = Ok es ->
+  Forall (fun e => perr_inside b e \/ (pe_stage e = ENoFiles /\ pe_pos e = None) \/ (pe_stage e = EPkgCycle /\ pe_pos e = None)) es.
+Proof. exact load_errors_positioned_partial. Qed.
+Print Assumptions C07_package_errors_positioned_partial.
+
+(* the import-order loader is one of the outcomes that SOME iteration order of resolveDependencies' map range
+   produces (load_kinds: the order-free description the CPkgLoad correspondence compares with) *)
+Theorem C07_loader_is_an_admissible_order : forall fuel b chain name es,
+  load (fun _ => FRFine) fuel b chain name = Ok es -> In (kind_of es) (load_kinds fuel b chain name).
+Proof. exact load_in_load_kinds. Qed.
+Print Assumptions C07_loader_is_an_admissible_order.
+
+(* ======================================================================================================
+   ENTITIES, by composition with C17 (the `ent` family's model of sourcewalk/entity.go, model/Entity.v):
+   an entity declaration expands (Entity.expand: total, C17_expand_total) into components that the converter
+   visits like hand-written declarations; model/CmpbEntity.v maps them onto the converter model.
+   ====================================================================================================== *)
+(* for EVERY entity declaration: the expansion returns components or one of the walker's two errors, and the
+   converter neither panics on them nor produces a file that fails to link (Entity.v has no
+   query.listRequest: that construct panics — recorded finding, C07_service_refuted) *)
+Theorem C07_entity_total_links : forall e,
+  match compile_entity e with
+  | Ok v => v <> VPanic /\ v <> VLinkErr
+  | Err _ => True
+  | _ => False
+  end.
+Proof. exact compile_entity_total. Qed.
+Print Assumptions C07_entity_total_links.
+
+(* accepted: a closed expansion (C17: closed exactly when the user's own references resolve) with well-formed
+   fields, existing path parameters and known HTTP verbs converts without an error and every file links *)
+Theorem C07_entity_accepted : forall pok cs,
+  closed cs = true -> forallb ofield_ok_deep (Entity.fields_of cs) = true -> forallb (comp_clean pok) cs = true ->
+  entity_verdict pok cs = VOk.
+Proof. exact entity_accepted. Qed.
+Print Assumptions C07_entity_accepted.
+
 (* ---- non-vacuity: concrete members of the language exercising rules, list rules, wrappers *)
 Example C07_example :
   let p := mkProp false (Array (Some (TInteger I64 (Some (mkIR true true (Some true) None false)) true)) (Some true) true) true false in
-  in_language p = true /\ uses_float_rules p = false /\ uses_informal_key_listrules p = false
+  in_language p = true /\ uses_float_rules p = false
   /\ compile_iso p = mkObs VOk [IJ5Ext; IBufValidate; IJ5List] [XField; XValidate; XList]
                            (Some (mkDesc PInt64 NNone true false)).
 Proof. vm_compute. repeat split. Qed.
@@ -308,3 +368,21 @@ Proof.
   split; [exact demo_walk_returns|]. split; [exact demo_walk_contract|].
   repeat split; vm_compute; reflexivity.
 Qed.
+
+(* an entity with data, an object reference to a schema of its own, events, a command with a raw response,
+   a summary, a query with events in Get: accepted; the same with a reference to a missing object: rejected *)
+Example C07_example_entity :
+  let str n := mkU (bs n) (KScalar 9 (bs "string")) false false in
+  let key := mkK (mkU (bs "fooId") (KKey true None None) false false) false in
+  let e := mkE (bs "foo.v1") (bs "Foo") [] [key] [str "name"; mkU (bs "part") (KObject (bs "Part")) false false]
+               [bs "ACTIVE"; bs "INACTIVE"] [mkEv (bs "Create") [str "name"]; mkEv (bs "Archive") []]
+               [mkC None None [mkM (bs "Rename") 2 (bs "rename") [mkU (bs "name") (KScalar 9 (bs "string")) true false] None]]
+               [mkS [] [str "name"]] (Some (mkQ true [] false)) [SObject (bs "Part") [str "x"]] in
+  let bad := mkE (bs "foo.v1") (bs "Foo") [] [key] [mkU (bs "part") (KObject (bs "Missing")) false false]
+               [bs "ACTIVE"] [] [] [] None [] in
+  compile_entity e = Ok VOk /\ compile_entity bad = Ok VConvErr
+  /\ match expand e with
+     | Ok cs => closed cs = true /\ forallb ofield_ok_deep (Entity.fields_of cs) = true /\ forallb (comp_clean true) cs = true
+     | _ => False
+     end.
+Proof. cbv zeta. vm_compute. repeat split. Qed.
